@@ -552,6 +552,26 @@ pub fn random_cli_scenario(rng: &mut StdRng, i: usize, thorough: bool) -> CliSce
     // flags: every flag alone, all pairs, then random subsets
     let nf = CLI_FLAGS.len();
     let mut flags: Vec<&'static str> = vec![];
+    if thorough && i >= 200_000 {
+        // thorough tier: ALL 2^16 subsets of the flags (scenario index 200000 + bits)
+        let bits = (i - 200_000) as u32;
+        for (k, f) in CLI_FLAGS.iter().enumerate() {
+            if bits & (1 << k) != 0 {
+                flags.push(f);
+            }
+        }
+        let tcs: Vec<String> = vec!["ab 12".into(), "ab 123".into(), "\u{e9}x\u{1F4A9}\u{1F4A9}".into(), "(ab)".into()];
+        let channel = ["args", "stdin", "file", "filestdin"][(bits as usize >> 3) % 4];
+        return CliScenario {
+            flags,
+            minrep: 1,
+            minsub: 1,
+            channel,
+            args: if channel == "args" { tcs.clone() } else { vec![] },
+            content: if channel == "args" { vec![] } else { tcs.join("\n").into_bytes() },
+            readable: true,
+        };
+    }
     if i < nf {
         flags.push(CLI_FLAGS[i]);
     } else if i < nf + nf * (nf - 1) / 2 {
